@@ -162,6 +162,109 @@ def _is_preemption(log, i, t):
     return False
 
 
+# ---------------------------------------------------------------------------------------------------
+# the lock-free window of a just-admitted writer (writer() after the admission loop, _setup_version,
+# _get_next_version_id, WritableVersion.__init__): at EVERY source line of it, let another thread shrink
+# the version deque - a reader that pinned an old version ends (prune), or the policy is tightened.
+
+def window_run(kind, variant, p):
+    """variant 0: a reader pins an old version across a commit and ends at line p of the next writer;
+    variant 1: versions are kept by set_max_versions(None) and set_max_versions(1) runs at line p.
+    Returns (failure or None, number of line steps the observed writer took)"""
+    WA = [0, 0, [[0, 2, 1]], 1]
+    WB = [0, 0, [[0, 3, 2]], 1]
+    WC = [0, 0, [[0, 4, 3]], 1]
+    if variant == 0:
+        progs = [[1, None], WA, WB, WC]
+        first, pruner = 0, 0
+    else:
+        progs = [[2, None], WA, WB, WC, [2, 1]]
+        first, pruner = 0, 4
+    lr = LineRun(progs, kind)
+    r = lr.r
+    ws = r.sched.workers
+    sched = []
+    fail = None
+    n_obs = 0
+
+    def run_until(tid, cond, budget=5000):
+        nonlocal fail
+        while fail is None and not cond() and budget:
+            budget -= 1
+            run = tid
+            if not r.sched.enabled(ws[tid]):
+                # blocked on the lock: let its holder leave the critical section first
+                owner = r.sched.lock.owner
+                others = [w.tid for w in ws if not w.done and r.sched.enabled(w)]
+                if owner is not None and owner in others:
+                    run = owner
+                elif others:
+                    run = others[0]
+                else:
+                    fail = {"what": "deadlock: unfinished threads and no step enabled", "blocked": tid,
+                            "gates": [repr(w.gate[2:]) for w in ws if not w.done]}
+                    return
+            sched.append(run)
+            r.step(run)
+            fail = lr.check_state(len(sched) - 1)
+
+    try:
+        if variant == 0:
+            run_until(0, lambda: ws[0].done or ws[0].gate[0] == "read")     # reader holds the current version
+        else:
+            run_until(0, lambda: ws[0].done)                                 # keep every version
+        run_until(1, lambda: ws[1].done)                                     # a commit: the deque grows
+        # the observed writer: p line steps (it is admitted within the first few of them)
+        k = 0
+        while fail is None and k < p and not ws[2].done:
+            run_until(2, lambda k0=len(sched): len(sched) > k0)
+            k += 1
+        n_obs = k
+        run_until(pruner, lambda: ws[pruner].done)                           # the deque shrinks here
+        run_until(2, lambda: ws[2].done)
+        run_until(3, lambda: ws[3].done)                                     # the zone must not be wedged
+        if fail is None:
+            for w in ws:
+                if not w.done:
+                    run_until(w.tid, lambda w=w: w.done)
+        if fail is None and r.all_done():
+            fail = lr.final_check()
+    finally:
+        r.close()
+    if fail is not None:
+        fail["step"] = len(sched) - 1
+    return fail, n_obs, progs, sched
+
+
+def window_check(ctx):
+    F = []
+    runs = 0
+    for kind in (0, 1):
+        for variant in (0, 1):
+            _, total, _, _ = window_run(kind, variant, 10 ** 6)
+            for p in range(total + 1):
+                fail, _, progs, sched = window_run(kind, variant, p)
+                runs += 1
+                if fail is not None:
+                    F.append({
+                        "kind": "C12:lines:" + fail["what"], "sig": "window:" + fail["what"],
+                        "what": fail["what"] + " (the version deque was pruned at line %d of a just-admitted writer)" % p,
+                        "how": ["a reader that pinned an old version ended there", "set_max_versions(1) ran there"][variant],
+                        "detail": {k: v for k, v in fail.items() if k != "what"},
+                        "case": [3, kind, progs, sched],
+                    })
+                    break
+    ctx.notes["extra_evaluations"] = ctx.notes.get("extra_evaluations", 0) + runs
+    ctx.notes["extra_nontrivial"] = ctx.notes.get("extra_nontrivial", 0) + runs
+    ctx.notes["lockfree_window_runs"] = runs
+    seen, out = set(), []
+    for f in F:
+        if f["sig"] not in seen:
+            seen.add(f["sig"])
+            out.append(f)
+    return out
+
+
 W1 = [0, 0, [[0, 2, 1]], 1]
 W2 = [0, 0, [[0, 3, 2], [1, 2]], 1]
 WR = [0, 0, [[0, 2, 7]], 2]
@@ -173,6 +276,7 @@ def check(ctx):
     F = []
     evals = 0
     lines = 0
+    F += window_check(ctx)
 
     def report(progs, kind, sched, fail, how):
         F.append({
